@@ -67,6 +67,8 @@ func runC05(w *World, r *Report) {
 	r.Rule("retain", "elements decoded in list loops are stored into the receiver", 8)
 	r.Rule("extent", "the size an element reports (by which list decoders advance) equals the bytes its encoder produces", 100)
 	r.Rule("exhaust", "list-decoding loops run while any element can remain", 10)
+	r.Rule("keepall", "an element consumed by a list loop is stored on every path", 0)
+	r.Rule("oxm-varlen", "variable-length OXM payloads are decoded with oxm_length (no mask) or half of it (mask), as the encoder writes them", 2)
 	r.Rule("fresh", "a value decoded into inside a list loop is new in each iteration (or fully overwritten by the child decoder)", 12)
 
 	nKinds := 0
@@ -103,14 +105,29 @@ func runC05(w *World, r *Report) {
 	}
 
 	// ---------------------------------------------------------------- trailing
+	var decoders []*FuncInfo
 	for _, k := range w.KindsL {
 		if k.Unmarshal == nil || !k.OwnUnmarshal {
 			continue
 		}
-		dfi := w.FuncOf(k.Unmarshal)
-		if dfi == nil {
-			continue
+		if dfi := w.FuncOf(k.Unmarshal); dfi != nil {
+			decoders = append(decoders, dfi)
 		}
+	}
+	// the dispatchers are child decoders too: they are handed the rest of the parent's input (Parse inside a
+	// bundle-add is followed by the bundle properties, DecodeAction inside a list by the next action)
+	for _, key := range w.sortedFuncKeys() {
+		fi := w.Funcs[key]
+		if fi.Recv == nil && fi.Decl.Body != nil && (fi.Decl.Name.Name == "Parse" || strings.HasPrefix(fi.Decl.Name.Name, "Decode") || strings.HasPrefix(fi.Decl.Name.Name, "decode")) && !strings.HasPrefix(key, "protocol.") {
+			for _, fl := range fi.Decl.Type.Params.List {
+				if isByteSlice(fi.Pkg.TypesInfo.TypeOf(fl.Type)) {
+					decoders = append(decoders, fi)
+					break
+				}
+			}
+		}
+	}
+	for _, dfi := range decoders {
 		info := dfi.Pkg.TypesInfo
 		var param types.Object
 		for _, fl := range dfi.Decl.Type.Params.List {
@@ -155,6 +172,7 @@ func runC05(w *World, r *Report) {
 
 	// ---------------------------------------------------------------- codes
 	codesRule(w, r)
+	w.oxmVarLenRule(r)
 
 	// ---------------------------------------------------------------- retain
 	for _, k := range w.KindsL {
@@ -168,6 +186,7 @@ func runC05(w *World, r *Report) {
 		retainRule(w, r, dfi)
 		freshRule(w, r, dfi)
 		exhaustRule(w, r, dfi)
+		keepAllRule(w, r, dfi)
 	}
 }
 
@@ -1056,6 +1075,161 @@ func exhaustRule(w *World, r *Report, dfi *FuncInfo) {
 		} else {
 			r.OK("exhaust", dfi.Key, inst, pos, "the loop runs while the cursor is below the end of the list", false)
 		}
+		return true
+	})
+}
+
+// keepAllRule: inside a loop that walks the input, an element is appended to the result list on every path
+// that consumed it. An append guarded by a condition on a value read from the element itself (its length
+// byte, a flag) with no alternative that also stores it or leaves the loop drops the elements for which the
+// condition is false — they are skipped on the wire and missing from the decoded value.
+func keepAllRule(w *World, r *Report, fi *FuncInfo) {
+	info := fi.Pkg.TypesInfo
+	var param types.Object
+	for _, fl := range fi.Decl.Type.Params.List {
+		for _, nm := range fl.Names {
+			if o := info.Defs[nm]; o != nil && isByteSlice(o.Type()) {
+				param = o
+			}
+		}
+	}
+	if param == nil || fi.Decl.Body == nil {
+		return
+	}
+	readsInput := func(e ast.Expr) bool {
+		found := false
+		ast.Inspect(e, func(n ast.Node) bool {
+			switch x := n.(type) {
+			case *ast.IndexExpr:
+				if identObj(info, x.X) == param {
+					found = true
+				}
+			case *ast.SliceExpr:
+				if identObj(info, x.X) == param {
+					// a read through a fixed-width helper: binary.BigEndian.Uint16(in[pos:])
+					found = true
+				}
+			}
+			return true
+		})
+		return found
+	}
+	n := 0
+	ast.Inspect(fi.Decl.Body, func(nd ast.Node) bool {
+		loop, ok := nd.(*ast.ForStmt)
+		if !ok {
+			return true
+		}
+		// wire-derived locals of this loop body: x := in[pos], x := int(in[pos]), x := binary…(in[pos:])
+		wire := map[types.Object]bool{}
+		ast.Inspect(loop.Body, func(m ast.Node) bool {
+			switch x := m.(type) {
+			case *ast.AssignStmt:
+				for i, l := range x.Lhs {
+					if i < len(x.Rhs) {
+						if o := identObj(info, l); o != nil && readsInput(x.Rhs[i]) {
+							if _, isCall := unparen(x.Rhs[i]).(*ast.SliceExpr); !isCall && isIntType(o.Type()) {
+								wire[o] = true
+							}
+						}
+					}
+				}
+			case *ast.ValueSpec:
+				for i, nm := range x.Names {
+					if i < len(x.Values) && readsInput(x.Values[i]) {
+						if o := info.Defs[nm]; o != nil && isIntType(o.Type()) {
+							wire[o] = true
+						}
+					}
+				}
+			}
+			return true
+		})
+		if len(wire) == 0 {
+			return true
+		}
+		// appends and the if-conditions that enclose them inside the loop body
+		var walk func(s ast.Stmt, conds []*ast.IfStmt)
+		terminates := func(b *ast.BlockStmt) bool {
+			if b == nil || len(b.List) == 0 {
+				return false
+			}
+			switch b.List[len(b.List)-1].(type) {
+			case *ast.ReturnStmt, *ast.BranchStmt:
+				return true
+			}
+			return false
+		}
+		hasAppend := func(s ast.Node) bool {
+			f := false
+			ast.Inspect(s, func(m ast.Node) bool {
+				if c, ok := m.(*ast.CallExpr); ok {
+					if id, ok := unparen(c.Fun).(*ast.Ident); ok && id.Name == "append" {
+						f = true
+					}
+				}
+				return true
+			})
+			return f
+		}
+		walk = func(s ast.Stmt, conds []*ast.IfStmt) {
+			switch x := s.(type) {
+			case *ast.BlockStmt:
+				for _, st := range x.List {
+					walk(st, conds)
+				}
+			case *ast.IfStmt:
+				walk(x.Body, append(append([]*ast.IfStmt(nil), conds...), x))
+				if x.Else != nil {
+					walk(x.Else, conds)
+				}
+			case *ast.SwitchStmt:
+				for _, c := range x.Body.List {
+					for _, st := range c.(*ast.CaseClause).Body {
+						walk(st, conds)
+					}
+				}
+			case *ast.AssignStmt:
+				if !hasAppend(x) {
+					return
+				}
+				n++
+				inst := fmt.Sprintf("append#%d", n)
+				for _, is := range conds {
+					usesWire, usesLen := "", false
+					ast.Inspect(is.Cond, func(m ast.Node) bool {
+						if id, ok := m.(*ast.Ident); ok {
+							if o := info.Uses[id]; o != nil && wire[o] {
+								usesWire = id.Name
+							}
+							if info.Uses[id] == param {
+								usesLen = true
+							}
+						}
+						return true
+					})
+					if usesWire == "" || usesLen {
+						continue
+					}
+					// the alternative must store the element too, or leave the loop
+					altOK := false
+					if is.Else != nil {
+						if eb, ok := is.Else.(*ast.BlockStmt); ok && (hasAppend(eb) || terminates(eb)) {
+							altOK = true
+						}
+						if ei, ok := is.Else.(*ast.IfStmt); ok && hasAppend(ei) {
+							altOK = true
+						}
+					}
+					if !altOK {
+						r.Fail(VViolation, "keepall", fi.Key, inst, w.Pos(x.Pos()), fmt.Sprintf("the element is stored only when %s, a condition on the value %s read from the element itself, and the other branch neither stores it nor leaves the loop: elements for which it is false are consumed and dropped", types.ExprString(is.Cond), usesWire))
+						return
+					}
+				}
+				r.OK("keepall", fi.Key, inst, w.Pos(x.Pos()), "stored on every path that consumed the element (enclosing conditions are on the input length or have a storing/terminating alternative)", len(conds) > 0)
+			}
+		}
+		walk(loop.Body, nil)
 		return true
 	})
 }
